@@ -27,10 +27,17 @@ def stage_blocks(case, stage):
     return out
 
 
+def micro_rows(case, micro):
+    """Batch rows of micro-batch `micro` (micro-batches of one accumulation window may have different sizes)."""
+    sizes = case.get('sizes')
+    return sizes[micro % len(sizes)] if sizes else case['N']
+
+
 def batch(case, stage, data_coord, seed, micro=0):
     gen = torch.Generator().manual_seed(seed * 1009 + stage * 131 + data_coord * 17 + micro * 7 + 1)
     # [batch, hidden] or, as GPT-NeoX feeds its layers, [seq, batch, hidden]
-    shape = (case['seq'], case['N'], case['h']) if case.get('seq') else (case['N'], case['h'])
+    n = micro_rows(case, micro)
+    shape = (case['seq'], n, case['h']) if case.get('seq') else (n, case['h'])
     x = torch.randn(shape, generator=gen)
     r = torch.randn(shape, generator=gen)
     pd = kmodel.dt(case.get('param_dtype')) or torch.float32
@@ -95,7 +102,7 @@ class GPTRank:
                 self.model.zero_grad(set_to_none=True)
                 for micro in range(c.get('accum', 1)):
                     x, r = batch(c, self.coord.pipe, self.coord.data, op['seed'], micro)
-                    loss_fn(self.model(x), r, c['N']).backward()
+                    loss_fn(self.model(x), r, micro_rows(c, micro)).backward()
                 simdist.set_phase(f'op{i}:train/ddp')
                 for p in self.model.parameters():
                     if c['data'] > 1:
@@ -248,7 +255,8 @@ def run_reference(case, program, stage=0, observe=()):
             xs, rs = zip(*[batch(case, stage, dcoord, op['seed'], micro) for dcoord in range(case['data'])])
             bdim = 1 if case.get('seq') else 0          # the batch dimension ([seq, batch, hidden] inputs)
             y = model(torch.cat(xs, bdim))
-            sum(loss_fn(yc, r, case['N']) for yc, r in zip(y.split(case['N'], bdim), rs)).backward()
+            nrow = micro_rows(case, micro)
+            sum(loss_fn(yc, r, nrow) for yc, r in zip(y.split(nrow, bdim), rs)).backward()
         for p in model.parameters():
             p.grad /= case['data'] * case.get('accum', 1)
         rec = {'i': i, 'op': 'train', 'before': {n: p.grad.detach().clone() for n, p in model.named_parameters()}}
